@@ -60,6 +60,13 @@ def deserialize_value(ty, value):
     '''
     Deserialize a value of some type
     '''
+    try:
+        return _deserialize_value(ty, value)
+    except ValueError:
+        return None
+
+
+def _deserialize_value(ty, value):
     uty = ty.upper()
     
     if uty == 'BOOLEAN':
